@@ -6,7 +6,10 @@ import Lean.Data.Json
 import Driver.Util
 import Driver.C18
 import Driver.C01
+import Driver.C02
+import Driver.C04
 import Driver.C07
+import Driver.C17
 open Lean
 
 namespace Driver
@@ -16,7 +19,10 @@ def handle (j : Json) : Json :=
   | .ok "ping" => Json.mkObj [("pong", true)]
   | .ok "C18" => C18.handle j
   | .ok "C01" => C01.handle j
+  | .ok "C02" => C02.handle j
+  | .ok "C04" => C04.handle j
   | .ok "C07" => C07.handle j
+  | .ok "C17" => C17.handle j
   | _ => badOp
 
 partial def loop (hin hout : IO.FS.Stream) : IO Unit := do
